@@ -82,6 +82,7 @@ class PureCheck:
                                         workers=self.judge_workers, per_item_states=self.per_item_states)
             design = fut.result()
         drift = 0
+        self._drift_samples = []
         for idx, v in sorted(verdicts.items()):
             ev = events[idx]
             if v[0] == "fail":
@@ -89,6 +90,8 @@ class PureCheck:
                          {"input": inputs[idx], "event": ev, "verdict": v})
             elif v[-1] == "drift":
                 drift += 1
+                if len(self._drift_samples) < 3:
+                    self._drift_samples.append(json.dumps(ev, separators=(",", ":"))[:800])
         classes = set()
         for ev in events:
             c = self.classify(ev)
@@ -106,6 +109,7 @@ class PureCheck:
             "rule": self.rule,
             "exhaustive": bool(self.exhaustive.get(tier)),
             "spec_drift_events": drift,
+            "spec_drift_samples": self._drift_samples,
             "failing_signatures_unlisted": fresh,
             "known_finding_signatures_seen": known,
             "samples": [json.dumps(events[k], separators=(",", ":"))[:1500] for k in self._sample_idx(len(events))],
